@@ -233,9 +233,13 @@ def seg_list(r, isq):
     for s in segs:
         if not isq and s in (b".", b".."):
             s = b"x"                      # RFC 7252 5.10.1: not valid Uri-Path values
-        if isq and s == b"":
-            s = b"q"                      # libcoap's own option table: Uri-Query 1..255
         out.append(s[:255])
+    # Empty Uri-Query items: libcoap's parser refuses them on the wire, but coap_get_query() is
+    # public API and takes any PDU (a client's own request), and the quantifier names empty
+    # segments - so they are in, in every position
+    if isq and r.random() < 0.25:
+        for _ in range(r.choice([1, 1, 2])):
+            out.insert(r.choice([0, 0, len(out), r.randint(0, len(out))]), b"")
     return out
 
 
